@@ -2,6 +2,7 @@ import XsVerif.Props.C04
 open XsVerif.Props.C04
 #print axioms lax_never_raises
 #print axioms skip_never_raises
+#print axioms skip_yields_spec
 #print axioms iterErrors_spec
 #print axioms isValid_iff
 #print axioms validate_spec
